@@ -1123,6 +1123,9 @@ nni_aio_sys_init(nng_init_params *params)
 	for (int i = 0; i < num_thr; i++) {
 		nni_aio_expire_q *eq;
 		if ((eq = nni_aio_expire_q_alloc()) == NULL) {
+			// the queues made so far run: stop them first
+			// (nni_aio_expire_q_free insists on that)
+			(void) nni_aio_sys_drain();
 			nni_aio_sys_fini();
 			return (NNG_ENOMEM);
 		}
